@@ -132,11 +132,14 @@ def run_c08(cases):
                     _, kind, name, s, i = op
                     ev.log = []
                     ev.on = True
-                    t0 = time.time()
-                    res = req_impl(objs, kind, name, s, i)
-                    ev.on = False
-                    if time.time() - t0 > 1.0:
+                    try:
+                        with pyimpl.time_limit(1.0):
+                            res = req_impl(objs, kind, name, s, i)
+                    except pyimpl.SlowCase:
+                        ev.on = False
+                        stats["slow_cases"] = stats.get("slow_cases", 0) + 1
                         break
+                    ev.on = False
                     rid = d.rids[id(objs[name])]
                     lines.append(" ".join(["HREQ", str(kind), str(rid), str(i)] + pyimpl.str_tokens(s)))
                     plan.append((c, op, res + " # " + " ".join(ev.log)))
@@ -286,29 +289,39 @@ def run_c13(cases):
             cls, objs = pyimpl.build_grammar(g)
             names = [r["name"] for r in g["rules"]]
             before = {}
-            for s in c["inputs"]:          # warm-up: fills the caches under the OLD grammar
-                for n in names:
-                    for i in range(len(s) + 1):
-                        before[(n, s, i)] = pyimpl.run_lparse(objs[n], s, i)
+            with pyimpl.time_limit(5.0):
+                for s in c["inputs"]:          # warm-up: fills the caches under the OLD grammar
+                    for n in names:
+                        for i in range(len(s) + 1):
+                            before[(n, s, i)] = pyimpl.run_lparse(objs[n], s, i)
             for m in c["muts"]:
                 apply_mut(cls, objs, m, rng)
                 stats["mutations"][m[0]] = stats["mutations"].get(m[0], 0) + 1
-        except RecursionError:
+        except (RecursionError, pyimpl.SlowCase):
             stats["skipped"] += 1
             continue
         d = pyimpl.Dump()
-        lines.append(d.grammar([objs[n] for n in names]))
-        for s in c["inputs"]:
-            st = pyimpl.str_tokens(s)
-            for n in names:
-                rid = d.rids[id(objs[n])]
-                for i in range(len(s) + 1):
-                    impl = pyimpl.run_lparse(objs[n], s, i)     # nothing below may touch the registry before this
-                    twin = pyimpl.run_lparse(tobjs[n], s, i)
-                    lines.append(" ".join(["LPARSE", "0", str(rid), str(i)] + st))
-                    plan.append((c, n, s, i, impl, twin))
-                    stats["probes"] += 1
-                    stats["changed_answers"] += impl != before[(n, s, i)]
+        gl = d.grammar([objs[n] for n in names])
+        rows = []
+        try:
+            with pyimpl.time_limit(8.0):
+                for s in c["inputs"]:
+                    st = pyimpl.str_tokens(s)
+                    for n in names:
+                        rid = d.rids[id(objs[n])]
+                        for i in range(len(s) + 1):
+                            impl = pyimpl.run_lparse(objs[n], s, i)     # nothing below may touch the registry before this
+                            twin = pyimpl.run_lparse(tobjs[n], s, i)
+                            rows.append((" ".join(["LPARSE", "0", str(rid), str(i)] + st), (c, n, s, i, impl, twin)))
+        except pyimpl.SlowCase:
+            stats["skipped"] += 1
+            continue
+        lines.append(gl)
+        for ln, row in rows:
+            lines.append(ln)
+            plan.append(row)
+            stats["probes"] += 1
+            stats["changed_answers"] += row[4] != before[(row[1], row[2], row[3])]
     outs = driver(lines) if lines else []
     mism = []
     distinct = set()
@@ -432,7 +445,12 @@ def run_c17(cases, exhaustive_upto=7):
         g = c["grammar"]
         # sequential reference on a cold twin
         cls0, objs0 = pyimpl.build_grammar(g)
-        ref = [req_impl(objs0, kind, n, s, i) for kind, n, s, i in c["reqs"]]
+        try:
+            with pyimpl.time_limit(1.0):
+                ref = [req_impl(objs0, kind, n, s, i) for kind, n, s, i in c["reqs"]]
+        except pyimpl.SlowCase:
+            stats["slow_cases"] = stats.get("slow_cases", 0) + 1
+            continue
         if any(r == "REC" for r in ref):
             continue
         # how many cache ops does each request make (cold)?  measure on another twin
